@@ -136,7 +136,10 @@ func runVariant(self, prop, repo, verif, patchPath, kind string) variantResult {
 }
 
 // selfTest runs all variants of a property with bounded parallelism.
-func selfTest(prop, repo, verif string) []variantResult {
+// Benign variants that touch none of the files the property's obligations were evaluated in
+// cannot change its verdict and are not re-analysed (result "unrelated"); this keeps the
+// thorough tier of one property to the variants that can matter for it.
+func selfTest(prop, repo, verif string, files map[string]bool) []variantResult {
 	self, err := os.Executable()
 	if err != nil {
 		return nil
@@ -160,7 +163,7 @@ func selfTest(prop, repo, verif string) []variantResult {
 	add(filepath.Join(verif, "variants", "mutants", prop, "*.diff"), "mutant")
 	add(filepath.Join(verif, "variants", "benign", "*.diff"), "benign")
 	res := make([]variantResult, len(jobs))
-	sem := make(chan struct{}, 6)
+	sem := make(chan struct{}, 8)
 	var wg sync.WaitGroup
 	for i, j := range jobs {
 		wg.Add(1)
@@ -168,6 +171,20 @@ func selfTest(prop, repo, verif string) []variantResult {
 			defer wg.Done()
 			sem <- struct{}{}
 			defer func() { <-sem }()
+			if j.kind == "benign" && len(files) > 0 {
+				related := false
+				if bz, err := os.ReadFile(j.path); err == nil {
+					for _, f := range patchFiles(bz) {
+						if files[f] {
+							related = true
+						}
+					}
+				}
+				if !related {
+					res[i] = variantResult{strings.TrimPrefix(j.path, verif+"/"), j.kind, "unrelated", "touches no file this property's obligations were evaluated in"}
+					return
+				}
+			}
 			res[i] = runVariant(self, prop, repo, verif, j.path, j.kind)
 		}(i, j)
 	}
